@@ -158,7 +158,7 @@ class CallsMixin:
                                 "root": info.get("root"), "path": info.get("path"),
                                 "symbolic": info.get("symbolic", False), "where": self.loc(node),
                                 "func": self.cur_func(), "stack": tuple(self.where), "text": _txt(node),
-                                "facts": list(env.facts)})
+                                "facts": list(env.facts), "seq": next(self.evc), "pc": list(env.pc)})
         env.heap[(oid, mattr)] = val
 
     def assign(self, tgt, val, env, mod, fn):
